@@ -854,6 +854,12 @@ func checkC08(in *exInput) []exFinding {
 		if !oka || !okb {
 			continue
 		}
+		if n.Broken && fine {
+			// a broken reference is left verbatim, i.e. not re-spelled for its new place: read from the root location its text may
+			// by coincidence designate something (a fragment-only "#/definitions" taken over from another document).  Its holder
+			// is a dangling position all the same
+			a = exMarkVerbatim(a, g.Broken)
+		}
 		x, y := so.unfold(g.Root, a, k.Kind, exDepth), so0.unfold(g.Root, b, k.Kind, exDepth)
 		if n.Broken {
 			if !fine {
@@ -875,6 +881,32 @@ func checkC08(in *exInput) []exFinding {
 		}
 	}
 	return exFirstPerShape(fs)
+}
+
+// exMarkVerbatim replaces every holder of a `$ref` whose text is that of an injected broken reference by a dangling marker.
+func exMarkVerbatim(v interface{}, broken []exBroken) interface{} {
+	switch x := v.(type) {
+	case map[string]interface{}:
+		if r, ok := x["$ref"].(string); ok {
+			for _, b := range broken {
+				if b.Ref == r {
+					return map[string]interface{}{"$dangling": r}
+				}
+			}
+		}
+		out := make(map[string]interface{}, len(x))
+		for k, e := range x {
+			out[k] = exMarkVerbatim(e, broken)
+		}
+		return out
+	case []interface{}:
+		out := make([]interface{}, len(x))
+		for i, e := range x {
+			out[i] = exMarkVerbatim(e, broken)
+		}
+		return out
+	}
+	return v
 }
 
 // exDiffModDangling: first difference between the unfolding x of a faulty graph and the unfolding y of its repair, ignoring
